@@ -242,7 +242,8 @@ impl BedrockState {
         let fields = 6 + t.draw(DATA, 5); // 6..=10
         Self {
             edition: (*t.pick(DATA, &["MCPE", "MCEE"])).to_string(),
-            motd: s(t, 60),
+            // now and then a very long line of text (the pong is then several kilobytes, far above 2048 bytes)
+            motd: if t.draw(DATA, 12) == 0 { gen::string(t, &StrOpts { max_len: 6000, forbid: &['\0', ';'], unicode: true, control: false, min_len: 2100 }) } else { s(t, 60) },
             protocol: t.draw(DATA, 1000).to_string(),
             version: s(t, 12),
             online: gen::u32_(t),
